@@ -1992,4 +1992,1001 @@ example (s0 : Store) (hc0 : Closed s0) (tc rid sp : Addr) (s1 s2 s3 : Store)
   · exact hsp.1 depth rid (by rw [len2]; exact r2)
   · exact hsp.1 depth tc (by rw [len2]; exact Nat.lt_of_lt_of_le r1 l2)
 
+/-! ## (f) USLP transfer frames: the frame KEEPS the caller's header and data field, `set_frame_len_in_header()` WRITES the
+caller's header -/
+
+/-- `PrimaryHeader(…)`, `TruncatedPrimaryHeader(…)`, `TransferFrameDataField(…)`, `TransferFrame(header, tfdf, …)` and
+    `TransferFrame.unpack(…)`: nothing the caller holds is modified (the constructor only stores the two objects) -/
+theorem C11_heap_uslp_ctor_inputs_untouched :
+    (∀ a b c d e f g, InputsUntouched (newUslpHeader a b c d e f g)) ∧ (∀ a b c d, InputsUntouched (newUslpTruncHeader a b c d)) ∧
+    (∀ r i fhp n, InputsUntouched (newTfdf r i fhp n)) ∧
+    (∀ hdr tfdf iz ocf fecf, InputsUntouched (newTransferFrame hdr tfdf iz ocf fecf)) ∧
+    (∀ tr hs ts fs, InputsUntouched (unpackFrame tr hs ts fs)) := by
+  refine ⟨?_, ?_, ?_, ?_, ?_⟩ <;> intros <;> apply C11_heap_allocOnly_inputs_untouched
+  · unfold newUslpHeader; alloc_ops
+  · unfold newUslpTruncHeader; alloc_ops
+  · unfold newTfdf; alloc_ops
+  · unfold newTransferFrame; alloc_ops
+  · unfold unpackFrame; alloc_ops
+
+/-- `TransferFrame(header, tfdf, …)` KEEPS both caller objects: `frame.header` / `frame.tfdf` of the returned frame are the
+    very addresses passed in, and the call allocates exactly the frame cell -/
+theorem C11_heap_uslp_frame_keeps_caller_objects (s : Store) (hdr tfdf : Addr) (hh : hdr < s.length) (ht : tfdf < s.length)
+    (iz ocf fecf : Option Nat) (fr : Addr) (s' : Store) (h : (newTransferFrame hdr tfdf iz ocf fecf).run s = some (fr, s')) :
+    followAttrs s' fr ["header"] = some hdr ∧ followAttrs s' fr ["tfdf"] = some tfdf ∧ fr = s.length ∧
+    s' = s ++ [⟨.transferFrame, [some hdr, some tfdf], [optEnc iz, optEnc ocf, optEnc fecf]⟩] := by
+  obtain ⟨rfl, rfl⟩ := (new_run _ _ _ _).mp h
+  refine ⟨?_, ?_, rfl, rfl⟩ <;> simp [followAttrs, followIdx, attr, List.getElem?_append_right] <;>
+    first | exact Nat.lt_succ_of_lt hh | exact Nat.lt_succ_of_lt ht
+
+/-- GENERAL (every store, no hypothesis): the write set of `frame.set_frame_len_in_header()` is EXACTLY the `frame_len`
+    scalar (index 0) of the header object the frame holds — after `TransferFrame(header, …)` that is the CALLER's
+    `PrimaryHeader` (`C11_heap_uslp_frame_keeps_caller_objects`): the call reads `frame.header`; if it is not a
+    `PrimaryHeader` the store is unchanged; otherwise the store afterwards is the store before with that one scalar set to
+    a value ≤ 65535. Every other cell is what it was, and every handle that does not reach the header shows the same view. -/
+theorem C11_heap_set_frame_len_writes_caller_header (s : Store) (fr : Addr) (u : Unit) (s' : Store)
+    (h : (setFrameLenInHeader fr).run s = some (u, s')) :
+    ∃ hd ch, followIdx s fr [0] = some hd ∧ s[hd]? = some ch ∧
+      ((ch.tag ≠ .uslpHeader ∧ s' = s) ∨
+       (ch.tag = .uslpHeader ∧ ∃ v, v ≤ 65535 ∧ s' = s.set hd { ch with scal := ch.scal.set 0 v })) ∧
+      (∀ a, a ≠ hd → s'[a]? = s[a]?) ∧ FrameOutside [hd] s s' := by
+  unfold setFrameLenInHeader at h
+  obtain ⟨hd, s1, h1, h2⟩ := (run_bind_some _ _ _ _ _).mp h
+  obtain ⟨⟨cf, hcf, hr⟩, e⟩ := (ref_run _ _ _ _ _).mp h1
+  subst s1
+  obtain ⟨ch, s2, h3, h4⟩ := (run_bind_some _ _ _ _ _).mp h2
+  obtain ⟨hch, e⟩ := (cellAt_run _ _ _ _).mp h3
+  subst s2
+  refine ⟨hd, ch, followIdx_one hcf hr, hch, ?_⟩
+  split at h4
+  · rename_i htag
+    obtain ⟨_, rfl⟩ := (pure_run _ _ _ _).mp h4
+    exact ⟨Or.inl ⟨htag, rfl⟩, fun _ _ => rfl, frameOutside_of_steps (.refl _)⟩
+  · rename_i htag
+    have htag' : ch.tag = .uslpHeader := Classical.not_not.mp htag
+    obtain ⟨t, s3, h5, h6⟩ := (run_bind_some _ _ _ _ _).mp h4
+    obtain ⟨_, e⟩ := (ref_run _ _ _ _ _).mp h5
+    subst s3
+    obtain ⟨vcf, s4, h7, h8⟩ := (run_bind_some _ _ _ _ _).mp h6
+    obtain ⟨_, e⟩ := (scalAt_run _ _ _ _ _).mp h7
+    subst s4
+    obtain ⟨sz, s5, h9, h10⟩ := (run_bind_some _ _ _ _ _).mp h8
+    obtain ⟨_, e⟩ := (scalAt_run _ _ _ _ _).mp h9
+    subst s5
+    obtain ⟨iz, s6, h11, h12⟩ := (run_bind_some _ _ _ _ _).mp h10
+    obtain ⟨_, e⟩ := (scalAt_run _ _ _ _ _).mp h11
+    subst s6
+    obtain ⟨ocf, s7, h13, h14⟩ := (run_bind_some _ _ _ _ _).mp h12
+    obtain ⟨_, e⟩ := (scalAt_run _ _ _ _ _).mp h13
+    subst s7
+    obtain ⟨fecf, s8, h15, h16⟩ := (run_bind_some _ _ _ _ _).mp h14
+    obtain ⟨_, e⟩ := (scalAt_run _ _ _ _ _).mp h15
+    subst s8
+    simp only at h16
+    split at h16
+    · exact ((fail_run _ _ _).mp h16).elim
+    · rename_i hle
+      obtain ⟨ch', hch', rfl⟩ := (setScal_run _ _ _ _ _ _).mp h16
+      have e1 : ch' = ch := by rw [hch] at hch'; exact (Option.some.inj hch').symm
+      subst e1
+      refine ⟨Or.inr ⟨htag', _, Nat.le_of_not_lt hle, rfl⟩, ?_, frameOutside_of_steps (.write hd _ (.refl _) (by simp))⟩
+      intro a ha
+      exact List.getElem?_set_ne (fun e => ha e.symm)
+
+/-- `TransferFrame.unpack(raw, …)` returns an all-new graph: the decoded frame, its header and its data field have no cell in
+    common with ANY object that existed before (in particular not with a frame / header the octets came from, nor with the
+    result of an earlier `unpack`), to every depth -/
+theorem C11_heap_uslp_unpack_fresh (tr : Bool) (hs ts fs : List Nat) (s : Store) (hc : Closed s) (dec : Addr) (s' : Store)
+    (h : (unpackFrame tr hs ts fs).run s = some (dec, s')) (n : Nat) (b : Addr) (hb : b < s.length) :
+    Disjoint (reachN n s' dec) (reachN n s' b) ∧ followAttrs s' dec ["header"] = some s.length ∧
+    followAttrs s' dec ["tfdf"] = some (s.length + 1) := by
+  simp [unpackFrame, StateT.run_bind, new_run_eq] at h
+  obtain ⟨rfl, rfl⟩ := h
+  refine ⟨?_, ?_, ?_⟩
+  · apply C11_heap_fresh_disjoint n s _ _ b hc hb
+    · simp [Cell.kids]
+    · omega
+  · simp [followAttrs, followIdx, attr, List.getElem?_append_right, Nat.add_assoc]
+  · simp [followAttrs, followIdx, attr, List.getElem?_append_right, Nat.add_assoc]
+
+/-- a caller's `PrimaryHeader` (0, frame length 0, no VCF count), its data field (1: rule 7, 3 octets of data zone, size 4) -/
+def exFrameStore : Store := [⟨.uslpHeader, [], [0, 0, 0, 33, 1, 2, 0]⟩, ⟨.tfdf, [], [7, 5, 0, 3, 4]⟩]
+
+/-- non-vacuity, evaluated: the constructor keeps both objects and leaves them alone; `set_frame_len_in_header()` then changes
+    what is read through the CALLER's header handle (0) — frame length 7 + 4 + 2 − 1 = 12 — and nothing else; on a truncated
+    header it changes nothing -/
+example : Closed exFrameStore ∧
+    Holds ((newTransferFrame 0 1 none none (some 2)).run exFrameStore) fun fr s' =>
+      view s' 0 = view exFrameStore 0 ∧ followAttrs s' fr ["header"] = some 0 ∧ followAttrs s' fr ["tfdf"] = some 1 ∧
+      Holds ((setFrameLenInHeader fr).run s') fun _ s'' =>
+        view s'' 0 ≠ view s' 0 ∧ (s''[0]?.map Cell.scal) = some [12, 0, 0, 33, 1, 2, 0] ∧ s''[1]? = s'[1]? ∧ s''[fr]? = s'[fr]? := by
+  decide
+
+example : Holds ((newUslpTruncHeader 33 1 2 0).run exFrameStore) fun th s0 =>
+    Holds ((newTransferFrame th 1 none none none).run s0) fun fr s' =>
+      Holds ((setFrameLenInHeader fr).run s') fun _ s'' => s'' = s' := by decide
+
+/-- … and a decoded frame is separated from the frame the octets came from -/
+example : Holds ((newTransferFrame 0 1 none none none).run exFrameStore) fun fr s' =>
+    Holds ((unpackFrame false [8, 0, 0, 33, 1, 2, 0] [7, 5, 0, 3, 4] [0, 0, 0]).run s') fun dec s'' =>
+      Disjoint (reach s'' dec) (reach s'' fr) ∧ followAttrs s'' dec ["header"] = some 3 := by decide
+
+/-! ## (g) adoption by the telemetry factories, service-1 reports built from a telemetry packet -/
+
+/-- `PusTm.from_composite_fields(sp_header, sec_header, tm_data)` modifies nothing the caller holds … -/
+theorem C11_heap_tm_from_composite_inputs_untouched (hdr sec : Addr) (n : Nat) :
+    InputsUntouched (tmFromCompositeFields hdr sec n) := by
+  apply C11_heap_allocOnly_inputs_untouched
+  unfold tmFromCompositeFields; alloc_ops
+
+/-- … and ADOPTS both objects: the new packet's `sp_header` / `space_packet_header` and `pus_tm_sec_header` are the caller's
+    objects (every later setter call on the packet therefore writes the caller's header: `C02_heap_tm_setter_confined`) -/
+theorem C11_heap_tm_from_composite_keeps_caller_object (s : Store) (hdr sec : Addr) (hh : hdr < s.length) (hs : sec < s.length)
+    (n : Nat) (r : Addr) (s' : Store) (h : (tmFromCompositeFields hdr sec n).run s = some (r, s')) :
+    followAttrs s' r ["sp_header"] = some hdr ∧ followAttrs s' r ["space_packet_header"] = some hdr ∧
+    followAttrs s' r ["pus_tm_sec_header"] = some sec ∧ s' = s ++ [⟨.pusTm, [some hdr, some sec], [n, 0]⟩] := by
+  unfold tmFromCompositeFields at h
+  obtain ⟨pid, s1, h1, h2⟩ := (run_bind_some _ _ _ _ _).mp h
+  obtain ⟨_, e⟩ := (ref_run _ _ _ _ _).mp h1
+  subst s1
+  obtain ⟨pt, s2, h3, h4⟩ := (run_bind_some _ _ _ _ _).mp h2
+  obtain ⟨_, e⟩ := (scalAt_run _ _ _ _ _).mp h3
+  subst s2
+  split at h4
+  · exact ((fail_run _ _ _).mp h4).elim
+  · obtain ⟨rfl, rfl⟩ := (new_run _ _ _ _).mp h4
+    refine ⟨?_, ?_, ?_, rfl⟩ <;> simp [followAttrs, followIdx, attr, List.getElem?_append_right] <;>
+      first | exact Nat.lt_succ_of_lt hh | exact Nat.lt_succ_of_lt hs
+
+/-- `Service1Tm.from_tm(tm, params)` and `Service1Tm(apid, subservice, timestamp)` (no parameters given) modify nothing the
+    caller holds — in particular `from_tm` does not write the telemetry packet it adopts -/
+theorem C15_heap_service1_from_tm_inputs_untouched :
+    (∀ tm, InputsUntouched (service1FromTm tm)) ∧ (∀ apid sub ts, InputsUntouched (newService1TmDefault apid sub ts)) := by
+  constructor <;> intros <;> apply C11_heap_allocOnly_inputs_untouched
+  · unfold service1FromTm newReqId newPacketId newPsc; alloc_ops
+  · unfold newService1TmDefault newReqId newPacketId newPsc newVerifParams
+    repeat' (first | exact alloc_newPusTm .. | exact alloc_new _ | intro _ | apply alloc_bind)
+
+/-- the cells `Service1Tm.from_tm` allocates besides the report itself: request ID (with `PacketId`, `PacketSeqCtrl`), optional
+    step ID, optional failure notice (with its error code), the parameters object — `base` is the first new address -/
+def s1Params (base sub : Nat) : List Cell :=
+  [⟨.packetId, [], [0, 0, 0]⟩, ⟨.psc, [], [0, 0]⟩, ⟨.requestId, [some base, some (base + 1)], [0]⟩] ++
+  (if sub = 5 ∨ sub = 6 then [⟨.fieldEnum, [], [8, 0]⟩] else []) ++
+  (if sub % 2 = 0 then [⟨.fieldEnum, [], [8, 0]⟩,
+      ⟨.failureNotice, [some (base + 3 + (if sub = 5 ∨ sub = 6 then 1 else 0))], [0]⟩] else []) ++
+  [⟨.verifParams, [some (base + 2), (if sub = 5 ∨ sub = 6 then some (base + 3) else none),
+      (if sub % 2 = 0 then some (base + 4 + (if sub = 5 ∨ sub = 6 then 1 else 0)) else none)], []⟩]
+
+private theorem service1FromTm_shape (s : Store) (tm rep : Addr) (s' : Store) (h : (service1FromTm tm).run s = some (rep, s')) :
+    ∃ sub, 1 ≤ sub ∧ sub ≤ 8 ∧ rep = s.length + (s1Params s.length sub).length ∧
+      s' = s ++ (s1Params s.length sub ++ [⟨.service1Tm, [some (s.length + (s1Params s.length sub).length - 1), some tm], []⟩]) := by
+  unfold service1FromTm at h
+  obtain ⟨n, s1, h1, h2⟩ := (run_bind_some _ _ _ _ _).mp h
+  obtain ⟨_, e⟩ := (scalAt_run _ _ _ _ _).mp h1
+  subst s1
+  obtain ⟨sec, s2, h3, h4⟩ := (run_bind_some _ _ _ _ _).mp h2
+  obtain ⟨_, e⟩ := (ref_run _ _ _ _ _).mp h3
+  subst s2
+  obtain ⟨sub, s3, h5, h6⟩ := (run_bind_some _ _ _ _ _).mp h4
+  obtain ⟨_, e⟩ := (scalAt_run _ _ _ _ _).mp h5
+  subst s3
+  split at h6
+  · exact ((fail_run _ _ _).mp h6).elim
+  · split at h6
+    · exact ((fail_run _ _ _).mp h6).elim
+    · rename_i hsub
+      have hsub' : 1 ≤ sub ∧ sub ≤ 8 := Classical.not_not.mp hsub
+      refine ⟨sub, hsub'.1, hsub'.2, ?_⟩
+      by_cases hst : sub = 5 ∨ sub = 6 <;> by_cases hf : sub % 2 = 0 <;>
+        simp [hst, hf, newReqId, newPacketId, newPsc, StateT.run_bind, new_run_eq, StateT.run_pure] at h6 <;>
+        obtain ⟨rfl, rfl⟩ := h6 <;>
+        simp [s1Params, hst, hf, Nat.add_assoc]
+
+private theorem s1Params_kids (base sub : Nat) :
+    (∀ c ∈ s1Params base sub, ∀ r ∈ c.kids, base ≤ r ∧ r < base + (s1Params base sub).length) ∧
+    0 < (s1Params base sub).length ∧
+    ∃ st fn, (s1Params base sub)[(s1Params base sub).length - 1]? = some ⟨.verifParams, [some (base + 2), st, fn], []⟩ ∧
+      2 < (s1Params base sub).length := by
+  by_cases hst : sub = 5 ∨ sub = 6 <;> by_cases hf : sub % 2 = 0 <;>
+    (refine ⟨?_, ?_, ?_⟩ <;> simp [s1Params, hst, hf, Cell.kids] <;> omega)
+
+/-- `Service1Tm.from_tm(tm, params)`, every closed store: the report ADOPTS the given telemetry packet (`report.pus_tm` is the
+    caller's object, not a copy), while everything else it holds — its parameters object with the decoded request ID
+    (`report.tc_req_id`), step ID and failure notice — is NEW: no cell in common with any object that existed before
+    (`tm`, the telecommand, a report built earlier from the same packet), to every depth -/
+theorem C15_heap_service1_from_tm_keeps_caller_object (s : Store) (hc : Closed s) (tm : Addr) (htm : tm < s.length)
+    (rep : Addr) (s' : Store) (h : (service1FromTm tm).run s = some (rep, s')) :
+    followAttrs s' rep ["pus_tm"] = some tm ∧
+    ∃ vp rid, followIdx s' rep [0] = some vp ∧ followAttrs s' rep ["tc_req_id"] = some rid ∧ s.length ≤ rid ∧
+      ∀ n b, b < s.length → Disjoint (reachN n s' vp) (reachN n s' b) := by
+  obtain ⟨sub, _, _, rfl, rfl⟩ := service1FromTm_shape s tm rep s' h
+  obtain ⟨hk, hpos, st, fn, hlast, h2⟩ := s1Params_kids s.length sub
+  generalize hT : s1Params s.length sub = T at hk hpos hlast h2 ⊢
+  have htmN : @LT.lt Nat _ tm s.length := htm
+  have hrep : (s ++ (T ++ [(⟨.service1Tm, [some (s.length + T.length - 1), some tm], []⟩ : Cell)]))[s.length + T.length]? =
+      some ⟨.service1Tm, [some (s.length + T.length - 1), some tm], []⟩ := by
+    rw [List.getElem?_append_right (Nat.le_add_right _ _), Nat.add_sub_cancel_left, List.getElem?_append_right (Nat.le_refl _)]
+    simp
+  have hvp : (s ++ (T ++ [(⟨.service1Tm, [some (s.length + T.length - 1), some tm], []⟩ : Cell)]))[s.length + T.length - 1]? =
+      some ⟨.verifParams, [some (s.length + 2), st, fn], []⟩ := by
+    rw [List.getElem?_append_right (by omega), List.getElem?_append_left (by omega)]
+    rw [show s.length + T.length - 1 - s.length = T.length - 1 by omega]
+    exact hlast
+  have htm' : tm < (s ++ (T ++ [(⟨.service1Tm, [some (s.length + T.length - 1), some tm], []⟩ : Cell)])).length :=
+    Nat.lt_of_lt_of_le htm (by simp only [List.length_append]; omega)
+  have hrid' : s.length + 2 < (s ++ (T ++ [(⟨.service1Tm, [some (s.length + T.length - 1), some tm], []⟩ : Cell)])).length := by
+    simp only [List.length_append, List.length_cons, List.length_nil]; omega
+  refine ⟨?_, s.length + T.length - 1, s.length + 2, ?_, ?_, by omega, ?_⟩
+  · simp [followAttrs, followIdx, attr, hrep]; omega
+  · simp [followIdx, hrep]
+  · simp [followAttrs, followIdx, attr, hrep, hvp]; omega
+  · intro n b hb
+    have hbN : @LT.lt Nat _ b s.length := hb
+    have hcT : Closed (s ++ T) := closed_append hc (fun c hcm r hr => (hk c hcm r hr).2)
+    rw [← List.append_assoc]
+    intro x hx hx'
+    rw [C11_heap_alloc_reach n (s ++ T) _ _ hcT
+      (show (s.length + T.length - 1 : Nat) < (s ++ T).length by simp only [List.length_append]; omega)] at hx
+    rw [C11_heap_alloc_reach n (s ++ T) _ _ hcT (Nat.lt_of_lt_of_le hb (by simp))] at hx'
+    exact C11_heap_fresh_disjoint n s T _ b hc hb (fun c hcm r hr => (hk c hcm r hr).1) (by omega) x hx hx'
+
+/-- reports built WITHOUT parameters (`Service1Tm(apid, subservice, timestamp)`, the `__empty()` every decoder starts from) do
+    not share their default parameters: each call allocates its own `VerificationParams` / `RequestId` — two results have no
+    cell in common -/
+theorem C15_heap_service1_default_results_separated (s : Store) (hc : Closed s) (a1 b1 c1 a2 b2 c2 : Nat) (x y : Addr) (s1 s2 : Store)
+    (h1 : (newService1TmDefault a1 b1 c1).run s = some (x, s1)) (h2 : (newService1TmDefault a2 b2 c2).run s1 = some (y, s2))
+    (n : Nat) : Disjoint (reachN n s2 y) (reachN n s2 x) := by
+  simp [newService1TmDefault, newReqId, newVerifParams, newPusTm, newSpHeader, newPacketId, newPsc, StateT.run_bind, new_run_eq] at h1 h2
+  obtain ⟨rfl, rfl⟩ := h1
+  obtain ⟨rfl, rfl⟩ := h2
+  apply C11_heap_fresh_disjoint n _ _ _ _
+  · apply closed_append hc
+    simp [Cell.kids] <;> omega
+  · simp
+  · simp [Cell.kids] <;> omega
+  · simp
+
+/-- a telemetry packet as a caller holds it (service 1, subservice 5, 5 octets of source data; the packet at 4, header at 2) -/
+def exTmStore : Store :=
+  match (newPusTm 1 5 66 9 7 5).run [] with
+  | some (_, s) => s
+  | none => []
+
+/-- evaluated: `from_tm` on it adopts the packet (4), allocates request ID, step ID and parameters, leaves the packet alone;
+    a second call on the same packet shares the packet and nothing else; `from_composite_fields` adopts header (2) and
+    secondary header (3) -/
+example : Closed exTmStore ∧ 4 < exTmStore.length ∧
+    Holds ((service1FromTm 4).run exTmStore) fun rep s' =>
+      followAttrs s' rep ["pus_tm"] = some 4 ∧ followAttrs s' rep ["tc_req_id"] = some 7 ∧ followAttrs s' rep ["step_id"] = some 8 ∧
+      view s' 4 = view exTmStore 4 ∧
+      Holds ((service1FromTm 4).run s') fun rep2 s'' =>
+        followAttrs s'' rep2 ["pus_tm"] = some 4 ∧ followAttrs s'' rep2 ["tc_req_id"] = some 13 ∧
+        Holds (some ((), s'')) fun _ _ => ¬ Disjoint (reach s'' rep2) (reach s'' rep) := by decide
+
+example : Holds ((tmFromCompositeFields 2 3 9).run exTmStore) fun tm s' =>
+    followAttrs s' tm ["sp_header"] = some 2 ∧ followAttrs s' tm ["pus_tm_sec_header"] = some 3 ∧ view s' 4 = view exTmStore 4 := by decide
+
+/-! ## (h) setters that reach the configuration THROUGH a PDU write the PDU's own copy -/
+
+private theorem pduHeaderConf_run (k : PduKind) (pdu : Addr) (t : Store) (hh c : Addr) (t1 : Store)
+    (h : (pduHeaderConf k pdu).run t = some ((hh, c), t1)) :
+    t1 = t ∧ followIdx t pdu (confPath k) = some c ∧ followIdx t hh [0] = some c := by
+  have three : (do let b ← ref pdu 0; let hh' ← ref b 0; let c' ← ref hh' 0; pure (hh', c') : H (Addr × Addr)).run t = some ((hh, c), t1) →
+      t1 = t ∧ followIdx t pdu [0, 0, 0] = some c ∧ followIdx t hh [0] = some c := by
+    intro h
+    obtain ⟨b, s1, h1, h2⟩ := (run_bind_some _ _ _ _ _).mp h
+    obtain ⟨⟨cp, hcp, hr1⟩, e⟩ := (ref_run _ _ _ _ _).mp h1
+    subst s1
+    obtain ⟨hh', s2, h3, h4⟩ := (run_bind_some _ _ _ _ _).mp h2
+    obtain ⟨⟨cb, hcb, hr2⟩, e⟩ := (ref_run _ _ _ _ _).mp h3
+    subst s2
+    obtain ⟨c', s3, h5, h6⟩ := (run_bind_some _ _ _ _ _).mp h4
+    obtain ⟨⟨chh, hchh, hr3⟩, e⟩ := (ref_run _ _ _ _ _).mp h5
+    subst s3
+    obtain ⟨e, rfl⟩ := (pure_run _ _ _ _).mp h6
+    cases e
+    exact ⟨rfl, by simp [followIdx, hcp, hr1, hcb, hr2, hchh, hr3], followIdx_one hchh hr3⟩
+  cases k <;> simp only [pduHeaderConf] at h <;> first
+    | exact three h
+    | (obtain ⟨hh', s2, h3, h4⟩ := (run_bind_some _ _ _ _ _).mp h
+       obtain ⟨⟨cb, hcb, hr2⟩, e⟩ := (ref_run _ _ _ _ _).mp h3
+       subst s2
+       obtain ⟨c', s3, h5, h6⟩ := (run_bind_some _ _ _ _ _).mp h4
+       obtain ⟨⟨chh, hchh, hr3⟩, e⟩ := (ref_run _ _ _ _ _).mp h5
+       subst s3
+       obtain ⟨e, rfl⟩ := (pure_run _ _ _ _).mp h6
+       cases e
+       exact ⟨rfl, by simp [confPath, followIdx, hcb, hr2, hchh, hr3], followIdx_one hchh hr3⟩)
+
+private theorem pduFlagSet_steps (k : PduKind) (s : Store) (pdu : Addr) (op : PduFlagOp) (hop : ∀ i v, op ≠ .fieldValue i v)
+    (u : Unit) (s' : Store) (h : (pduFlagSet k pdu op).run s = some (u, s')) :
+    ∃ hd c, followIdx s pdu (confPath k) = some c ∧ followIdx s hd [0] = some c ∧ Steps [c, hd] s s' ∧
+      (∀ a, a ≠ c → a ≠ hd → s'[a]? = s[a]?) ∧ s'.length = s.length := by
+  cases op with
+  | fileFlag v =>
+    simp only [pduFlagSet] at h
+    obtain ⟨⟨hd, c⟩, s1, h1, h2⟩ := (run_bind_some _ _ _ _ _).mp h
+    obtain ⟨rfl, hc, hh⟩ := pduHeaderConf_run k pdu s hd c s1 h1
+    simp only at h2
+    obtain ⟨crc, s2, h3, h4⟩ := (run_bind_some _ _ _ _ _).mp h2
+    obtain ⟨_, e⟩ := (scalAt_run _ _ _ _ _).mp h3
+    subst s2
+    obtain ⟨u1, s3, h5, h6⟩ := (run_bind_some _ _ _ _ _).mp h4
+    obtain ⟨c1, _, rfl⟩ := (setScal_run _ _ _ _ _ _).mp h5
+    obtain ⟨c2, _, rfl⟩ := (setScal_run _ _ _ _ _ _).mp h6
+    refine ⟨hd, c, hc, hh, .write hd _ (.write c _ (.refl _) (by simp)) (by simp), ?_, by simp⟩
+    intro a ha1 ha2
+    rw [List.getElem?_set_ne (fun e => ha2 e.symm), List.getElem?_set_ne (fun e => ha1 e.symm)]
+  | hdrScalar i v =>
+    simp only [pduFlagSet] at h
+    obtain ⟨⟨hd, c⟩, s1, h1, h2⟩ := (run_bind_some _ _ _ _ _).mp h
+    obtain ⟨rfl, hc, hh⟩ := pduHeaderConf_run k pdu s hd c s1 h1
+    simp only at h2
+    obtain ⟨c1, _, rfl⟩ := (setScal_run _ _ _ _ _ _).mp h2
+    refine ⟨hd, c, hc, hh, .write c _ (.refl _) (by simp), ?_, by simp⟩
+    intro a ha1 _
+    rw [List.getElem?_set_ne (fun e => ha1 e.symm)]
+  | entityIds a b =>
+    simp only [pduFlagSet] at h
+    obtain ⟨⟨hd, c⟩, s1, h1, h2⟩ := (run_bind_some _ _ _ _ _).mp h
+    obtain ⟨rfl, hc, hh⟩ := pduHeaderConf_run k pdu s hd c s1 h1
+    simp only at h2
+    obtain ⟨wa, s2, h3, h4⟩ := (run_bind_some _ _ _ _ _).mp h2
+    obtain ⟨_, e⟩ := (scalAt_run _ _ _ _ _).mp h3
+    subst s2
+    obtain ⟨wb, s3, h5, h6⟩ := (run_bind_some _ _ _ _ _).mp h4
+    obtain ⟨_, e⟩ := (scalAt_run _ _ _ _ _).mp h5
+    subst s3
+    split at h6
+    · exact ((fail_run _ _ _).mp h6).elim
+    · obtain ⟨u1, s4, h7, h8⟩ := (run_bind_some _ _ _ _ _).mp h6
+      obtain ⟨c1, _, rfl⟩ := (setRef_run _ _ _ _ _ _).mp h7
+      obtain ⟨c2, _, rfl⟩ := (setRef_run _ _ _ _ _ _).mp h8
+      refine ⟨hd, c, hc, hh, .write c _ (.write c _ (.refl _) (by simp)) (by simp), ?_, by simp⟩
+      intro x hx1 _
+      rw [List.getElem?_set_ne (fun e => hx1 e.symm), List.getElem?_set_ne (fun e => hx1 e.symm)]
+  | seqNum q =>
+    simp only [pduFlagSet] at h
+    obtain ⟨⟨hd, c⟩, s1, h1, h2⟩ := (run_bind_some _ _ _ _ _).mp h
+    obtain ⟨rfl, hc, hh⟩ := pduHeaderConf_run k pdu s hd c s1 h1
+    simp only at h2
+    obtain ⟨c1, _, rfl⟩ := (setRef_run _ _ _ _ _ _).mp h2
+    refine ⟨hd, c, hc, hh, .write c _ (.refl _) (by simp), ?_, by simp⟩
+    intro a ha1 _
+    rw [List.getElem?_set_ne (fun e => ha1 e.symm)]
+  | fieldValue i v => exact absurd rfl (hop i v)
+
+/-- GENERAL (every store, every kind): `pdu.file_flag = …` (Keep Alive, NAK), `pdu.pdu_header.<flag> = …` /
+    `pdu.pdu_file_directive.file_flag / crc_flag = …`, `pdu.pdu_header.set_entity_ids(a, b)` and
+    `pdu.pdu_header.transaction_seq_num = q` overwrite at most two cells — the configuration `pdu.pdu_header.pdu_conf` ends at,
+    and the header holding it —; every other cell is what it was, and every handle reaching neither shows the same view -/
+theorem C11_heap_pdu_flag_setter_confined (k : PduKind) (s : Store) (pdu : Addr) (op : PduFlagOp) (hop : ∀ i v, op ≠ .fieldValue i v)
+    (u : Unit) (s' : Store) (h : (pduFlagSet k pdu op).run s = some (u, s')) :
+    ∃ hd c, followIdx s pdu (confPath k) = some c ∧ followIdx s hd [0] = some c ∧ FrameOutside [c, hd] s s' ∧
+      (∀ a, a ≠ c → a ≠ hd → s'[a]? = s[a]?) ∧ s'.length = s.length := by
+  obtain ⟨hd, c, h1, h2, st, h3, h4⟩ := pduFlagSet_steps k s pdu op hop u s' h
+  exact ⟨hd, c, h1, h2, frameOutside_of_steps st, h3, h4⟩
+
+/-- where the configuration and header of a PDU just built are: both are cells the constructor allocated -/
+private theorem newPdu_conf_header_fresh (k : PduKind) (conf : Addr) (objs : List (Option Addr)) (scal : List Nat) (af : Bool)
+    (fl dl : Nat) (s : Store) (hc : Closed s) (cc : Cell) (hcc : s[conf]? = some cc) (hl : ConfFieldsAreLeaves s conf)
+    (ho : ObjsAvoid s objs conf) (pdu : Addr) (s' : Store) (h : (newPdu k conf objs scal af fl dl).run s = some (pdu, s'))
+    (hd c : Addr) (h1 : followIdx s' pdu (confPath k) = some c) (h2 : followIdx s' hd [0] = some c) :
+    c = s.length ∧ s.length ≤ hd ∧ ∃ t, s' = s ++ t := by
+  obtain ⟨_, hp, _, _, _, _, _, _⟩ := C11_heap_conf_bytefields_shared k conf objs scal af fl dl s hc cc hcc hl ho pdu s' h
+  obtain ⟨t, rfl⟩ := (alloc_newPdu k conf objs scal af fl dl).ext s pdu s' h
+  have ec : c = s.length := by rw [hp] at h1; exact (Option.some.inj h1).symm
+  refine ⟨ec, ?_, t, rfl⟩
+  apply Nat.le_of_not_lt
+  intro hlt
+  simp only [followIdx] at h2
+  rw [List.getElem?_append_left hlt] at h2
+  cases hcd : s[hd]? with
+  | none => simp [hcd] at h2
+  | some chd =>
+    simp only [hcd] at h2
+    cases hr : chd.refs[0]? with
+    | none => simp [hr] at h2
+    | some o =>
+      cases o with
+      | none => simp [hr] at h2
+      | some r =>
+        simp only [hr] at h2
+        have e : r = c := Option.some.inj h2
+        have := closed_kid_lt hc hcd (kid_of_ref hr)
+        rw [e, ec] at this
+        exact Nat.lt_irrefl _ this
+
+/-- C11, the PDU-level flag setters — GENERAL: every closed store, all eight kinds, every caller configuration and caller objects,
+    every one of `pdu.file_flag = v`, `pdu.pdu_header.<trans. mode | file_flag | crc_flag | direction | seg_ctrl> = v`,
+    `pdu.pdu_header.set_entity_ids(a, b)`, `pdu.pdu_header.transaction_seq_num = q` on a PDU the constructor returned:
+    the write is confined to cells the constructor allocated (the PDU's own configuration copy and its header), hence
+    EVERY pre-existing cell — the caller's `PduConfig`, its three byte fields, the parameter objects — is what it was, and
+    every pre-existing handle (the caller's configuration handle in particular) shows the same view and reaches the same
+    cells, to every depth. (`set_entity_ids` / `transaction_seq_num` REPLACE the references in the PDU's configuration; they do
+    not assign `.value` of the shared byte fields — see `C11_heap_pdu_entity_setters_replace_references`.) -/
+theorem C11_heap_pdu_flag_setter_invisible_to_caller (k : PduKind) (conf : Addr) (objs : List (Option Addr)) (scal : List Nat)
+    (af : Bool) (fl dl : Nat) (s : Store) (hc : Closed s) (cc : Cell) (hcc : s[conf]? = some cc) (hl : ConfFieldsAreLeaves s conf)
+    (ho : ObjsAvoid s objs conf) (pdu : Addr) (s' : Store) (h : (newPdu k conf objs scal af fl dl).run s = some (pdu, s'))
+    (op : PduFlagOp) (hop : ∀ i v, op ≠ .fieldValue i v) (u : Unit) (s'' : Store) (hw : (pduFlagSet k pdu op).run s' = some (u, s'')) :
+    (∀ a, a < s.length → s''[a]? = s'[a]?) ∧ s''[conf]? = some cc ∧
+    (∀ n b, b < s.length → viewN n s'' b = viewN n s' b ∧ reachN n s'' b = reachN n s' b) := by
+  obtain ⟨hd, c, h1, h2, st, hcells, _⟩ := pduFlagSet_steps k s' pdu op hop u s'' hw
+  obtain ⟨rfl, hhd, t, rfl⟩ := newPdu_conf_header_fresh k conf objs scal af fl dl s hc cc hcc hl ho pdu s' h hd _ h1 h2
+  have hconf : conf < s.length := (List.getElem?_eq_some_iff.mp hcc).1
+  have hold : ∀ a, a < s.length → s''[a]? = (s ++ t)[a]? := by
+    intro a ha
+    apply hcells a
+    · exact fun e => Nat.lt_irrefl _ (e ▸ ha)
+    · exact fun e => Nat.lt_irrefl _ (Nat.lt_of_lt_of_le (e ▸ ha) hhd)
+  refine ⟨hold, ?_, ?_⟩
+  · rw [hold conf hconf, List.getElem?_append_left hconf]; exact hcc
+  · intro n b hb
+    have hreach : reachN n (s ++ t) b = reachN n s b := C11_heap_alloc_reach n s t b hc hb
+    have hlt := C11_heap_reach_closed n s b hc hb
+    have hv : Valid n (s ++ t) b := by
+      intro y hy
+      rw [hreach] at hy
+      rw [List.length_append]
+      exact Nat.lt_of_lt_of_le (hlt y hy) (Nat.le_add_right _ _)
+    obtain ⟨a1, a2, _⟩ := C11_heap_steps_frame st n b hv (by
+      intro a ha hr
+      rw [hreach] at hr
+      have := hlt a hr
+      simp only [List.mem_cons, List.not_mem_nil, or_false] at ha
+      rcases ha with rfl | rfl
+      · exact Nat.lt_irrefl _ this
+      · exact Nat.lt_irrefl _ (Nat.lt_of_lt_of_le this hhd))
+    exact ⟨a1, a2⟩
+
+/-- TRUTHFUL, GENERAL: `set_entity_ids(a, b)` / `transaction_seq_num = q` through a PDU REPLACE object references in the PDU's
+    own configuration copy (the new cell `s.length`): afterwards that cell holds the GIVEN objects `a`, `b` / `q`, the caller's
+    configuration cell still holds its own three byte fields, and no byte-field cell was written
+    (`C11_heap_pdu_flag_setter_invisible_to_caller`: every old cell is unchanged) — the setters do NOT assign `.value` in place -/
+theorem C11_heap_pdu_entity_setters_replace_references (k : PduKind) (conf : Addr) (objs : List (Option Addr)) (scal : List Nat)
+    (af : Bool) (fl dl : Nat) (s : Store) (hc : Closed s) (cc : Cell) (hcc : s[conf]? = some cc) (hl : ConfFieldsAreLeaves s conf)
+    (ho : ObjsAvoid s objs conf) (pdu : Addr) (s' : Store) (h : (newPdu k conf objs scal af fl dl).run s = some (pdu, s'))
+    (u : Unit) (s'' : Store) :
+    (∀ a b, (pduFlagSet k pdu (.entityIds a b)).run s' = some (u, s'') →
+      s''[s.length]? = some { cc with scal := cc.scal.set 3 (k.dir af), refs := (cc.refs.set 0 (some a)).set 1 (some b) } ∧
+      s''[conf]? = some cc) ∧
+    (∀ q, (pduFlagSet k pdu (.seqNum q)).run s' = some (u, s'') →
+      s''[s.length]? = some { cc with scal := cc.scal.set 3 (k.dir af), refs := cc.refs.set 2 (some q) } ∧ s''[conf]? = some cc) := by
+  obtain ⟨_, hp, _, hcopy, _, _, _, _⟩ := C11_heap_conf_bytefields_shared k conf objs scal af fl dl s hc cc hcc hl ho pdu s' h
+  have hlen : s.length < s'.length := (List.getElem?_eq_some_iff.mp hcopy).1
+  constructor
+  · intro a b hw
+    have hinv := (C11_heap_pdu_flag_setter_invisible_to_caller k conf objs scal af fl dl s hc cc hcc hl ho pdu s' h
+      (.entityIds a b) (fun _ _ e => by cases e) u s'' hw).2.1
+    refine ⟨?_, hinv⟩
+    simp only [pduFlagSet] at hw
+    obtain ⟨⟨hd, c⟩, s1, h1, h2⟩ := (run_bind_some _ _ _ _ _).mp hw
+    obtain ⟨rfl, hc', _⟩ := pduHeaderConf_run k pdu s' hd c s1 h1
+    have ec : c = s.length := by rw [hp] at hc'; exact (Option.some.inj hc').symm
+    subst ec
+    simp only at h2
+    obtain ⟨wa, s2, h3, h4⟩ := (run_bind_some _ _ _ _ _).mp h2
+    obtain ⟨_, e⟩ := (scalAt_run _ _ _ _ _).mp h3
+    subst s2
+    obtain ⟨wb, s3, h5, h6⟩ := (run_bind_some _ _ _ _ _).mp h4
+    obtain ⟨_, e⟩ := (scalAt_run _ _ _ _ _).mp h5
+    subst s3
+    split at h6
+    · exact ((fail_run _ _ _).mp h6).elim
+    · obtain ⟨u1, s4, h7, h8⟩ := (run_bind_some _ _ _ _ _).mp h6
+      obtain ⟨c1, hc1, rfl⟩ := (setRef_run _ _ _ _ _ _).mp h7
+      obtain ⟨c2, hc2, rfl⟩ := (setRef_run _ _ _ _ _ _).mp h8
+      rw [hcopy] at hc1
+      cases hc1
+      rw [List.getElem?_set_self hlen] at hc2
+      cases hc2
+      rw [List.getElem?_set_self (by simpa using hlen)]
+  · intro q hw
+    have hinv := (C11_heap_pdu_flag_setter_invisible_to_caller k conf objs scal af fl dl s hc cc hcc hl ho pdu s' h
+      (.seqNum q) (fun _ _ e => by cases e) u s'' hw).2.1
+    refine ⟨?_, hinv⟩
+    simp only [pduFlagSet] at hw
+    obtain ⟨⟨hd, c⟩, s1, h1, h2⟩ := (run_bind_some _ _ _ _ _).mp hw
+    obtain ⟨rfl, hc', _⟩ := pduHeaderConf_run k pdu s' hd c s1 h1
+    have ec : c = s.length := by rw [hp] at hc'; exact (Option.some.inj hc').symm
+    subst ec
+    simp only at h2
+    obtain ⟨c1, hc1, rfl⟩ := (setRef_run _ _ _ _ _ _).mp h2
+    rw [hcopy] at hc1
+    cases hc1
+    rw [List.getElem?_set_self hlen]
+
+/-- TRUTHFUL, GENERAL — the one write through a PDU that the CALLER sees: `pdu.source_entity_id.value = v` (likewise the
+    destination ID and the sequence number) assigns INTO the byte-field object, and that object is the one the caller's
+    configuration holds (`copy.copy` is shallow): the written cell is the cell the caller's `conf.<field>` denotes, before and
+    after, and it now holds `v` -/
+theorem C11_heap_pdu_bytefield_write_visible_to_caller (k : PduKind) (conf : Addr) (objs : List (Option Addr)) (scal : List Nat)
+    (af : Bool) (fl dl : Nat) (s : Store) (hc : Closed s) (cc : Cell) (hcc : s[conf]? = some cc) (hl : ConfFieldsAreLeaves s conf)
+    (ho : ObjsAvoid s objs conf) (pdu : Addr) (s' : Store) (h : (newPdu k conf objs scal af fl dl).run s = some (pdu, s'))
+    (i v : Nat) (u : Unit) (s'' : Store) (hw : (pduFlagSet k pdu (.fieldValue i v)).run s' = some (u, s'')) :
+    ∃ r cr, cc.refs[i]? = some (some r) ∧ r < s.length ∧ s'[r]? = some cr ∧ followIdx s' conf [i] = some r ∧
+      followIdx s'' conf [i] = some r ∧ s''[r]? = some { cr with scal := cr.scal.set 1 v } := by
+  obtain ⟨_, hp, _, hcopy, hconf, _, _, _⟩ := C11_heap_conf_bytefields_shared k conf objs scal af fl dl s hc cc hcc hl ho pdu s' h
+  simp only [pduFlagSet] at hw
+  obtain ⟨⟨hd, c⟩, s1, h1, h2⟩ := (run_bind_some _ _ _ _ _).mp hw
+  obtain ⟨rfl, hc', _⟩ := pduHeaderConf_run k pdu s' hd c s1 h1
+  have ec : c = s.length := by rw [hp] at hc'; exact (Option.some.inj hc').symm
+  subst ec
+  simp only at h2
+  obtain ⟨r, s2, h3, h4⟩ := (run_bind_some _ _ _ _ _).mp h2
+  obtain ⟨⟨c0, hc0, hr⟩, e⟩ := (ref_run _ _ _ _ _).mp h3
+  subst s2
+  rw [hcopy] at hc0
+  cases hc0
+  simp only at hr
+  obtain ⟨cr, hcr, rfl⟩ := (setScal_run _ _ _ _ _ _).mp h4
+  have hrl : r < s.length := closed_kid_lt hc hcc (kid_of_ref hr)
+  have hne : r ≠ conf := (hl r (by simpa [hcc] using kid_of_ref hr)).2
+  refine ⟨r, cr, hr, hrl, hcr, followIdx_one hconf hr, ?_, List.getElem?_set_self (List.getElem?_eq_some_iff.mp hcr).1⟩
+  exact followIdx_one (by rw [List.getElem?_set_ne hne]; exact hconf) hr
+
+/-- evaluated on `exConfStore` (configuration 3, byte fields 0 1 2), Keep Alive and NAK: `pdu.file_flag = 0` changes what is read
+    through the PDU but nothing that is read through the caller's configuration; `set_entity_ids(a, b)` with two new byte
+    fields makes the PDU read `a` while the caller's configuration still reads its own field 0, whose cell is unchanged;
+    `pdu.source_entity_id.value = 99` IS read through the caller's configuration -/
+example : ∀ k ∈ [PduKind.keepAlive, .nak],
+    Holds ((newPdu k 3 [] [7]).run exConfStore) fun pdu s' =>
+      Holds ((pduFlagSet k pdu (.fileFlag 0)).run s') fun _ s'' =>
+        view s'' pdu ≠ view s' pdu ∧ view s'' 3 = view s' 3 ∧ view s' 3 = view exConfStore 3 := by decide
+
+example : Holds ((newPdu .keepAlive 3 [] [7]).run (exConfStore ++ [⟨.byteField, [], [2, 77]⟩, ⟨.byteField, [], [2, 88]⟩])) fun pdu s' =>
+    Holds ((pduFlagSet .keepAlive pdu (.entityIds 6 7)).run s') fun _ s'' =>
+      followAttrs s'' pdu ["source_entity_id"] = some 6 ∧ followAttrs s'' pdu ["dest_entity_id"] = some 7 ∧
+      followAttrs s'' 3 ["source_entity_id"] = some 0 ∧ s''[0]? = exConfStore[0]? ∧ view s'' 3 = view exConfStore 3 := by decide
+
+example : Holds ((newPdu .keepAlive 3 [] [7]).run exConfStore) fun pdu s' =>
+    Holds ((pduFlagSet .keepAlive pdu (.fieldValue 0 99)).run s') fun _ s'' => view s'' 3 ≠ view s' 3 := by decide
+
+/-! ## (i) `NakPdu(conf, start, end)` without a list; closure preservation for the setters and the remaining builders -/
+
+/-- `NakPdu(conf, a, b, segment_requests=None)` IS the common constructor body run on a store that already holds a NEW empty
+    list (so every theorem about `newPdu` applies to it, on the closed store `s ++ [list]`): the returned PDU's
+    `segment_requests` is that new list (address `s.length`), and the list is not reachable from ANY object that existed before
+    — two NAK PDUs built without a list never share one -/
+theorem C11_heap_nak_none_allocates_list (conf : Addr) (a b : Nat) (s : Store) (pdu : Addr) (s' : Store)
+    (h : (newNakPdu conf a b none).run s = some (pdu, s')) :
+    (newPdu .nak conf [some s.length] [a, b]).run (s ++ [⟨.pyList, [], []⟩]) = some (pdu, s') ∧
+    (Closed s → Closed (s ++ [(⟨.pyList, [], []⟩ : Cell)])) ∧
+    (∀ cc, s[conf]? = some cc → followAttrs s' pdu ["segment_requests"] = some s.length) ∧
+    (Closed s → ∀ n x, x < s.length → s.length ∉ reachN n s' x) := by
+  have h0 := h
+  simp only [newNakPdu] at h
+  obtain ⟨l, s1, h1, h2⟩ := (run_bind_some _ _ _ _ _).mp h
+  obtain ⟨rfl, rfl⟩ := (new_run _ _ _ _).mp h1
+  refine ⟨h2, fun hc => closed_append hc (by simp [Cell.kids]), ?_, ?_⟩
+  · intro cc hcc
+    have hcc' : (s ++ [(⟨.pyList, [], []⟩ : Cell)])[conf]? = some cc := by
+      rw [List.getElem?_append_left (List.getElem?_eq_some_iff.mp hcc).1]; exact hcc
+    rcases newPdu_shape .nak conf _ _ _ _ _ _ cc hcc' pdu s' h2 with ⟨hk, _, _⟩ | ⟨_, rfl, rfl⟩
+    · cases hk
+    · simp [followAttrs, followIdx, attr, PduKind.tag, List.getElem?_append_right, Nat.add_assoc]
+  · intro hc n x hx hm
+    have hal : AllocOnly (newNakPdu conf a b none) := by
+      unfold newNakPdu
+      repeat' (first | exact alloc_newPdu .. | exact alloc_new _ | intro _ | split | apply alloc_bind)
+    obtain ⟨t, rfl⟩ := hal.ext s pdu s' h0
+    rw [C11_heap_alloc_reach n s t x hc hx] at hm
+    exact Nat.lt_irrefl _ (C11_heap_reach_closed n s x hc hx _ hm)
+
+/-- `s'` is `s` after finitely many steps each of which keeps a closed store closed: a scalar assignment, the assignment of an
+    object attribute to `None` or to a cell of the store, the allocation of a cell referring to cells of the store -/
+inductive CSteps : Store → Store → Prop
+  | refl (s : Store) : CSteps s s
+  | scal {s s1 : Store} (a : Addr) (c : Cell) (f : List Nat) : CSteps s s1 → s1[a]? = some c → CSteps s (s1.set a { c with scal := f })
+  | ref {s s1 : Store} (a : Addr) (c : Cell) (i : Nat) (v : Option Addr) : CSteps s s1 → s1[a]? = some c →
+      (∀ r, v = some r → r < s1.length) → CSteps s (s1.set a { c with refs := c.refs.set i v })
+  | alloc {s s1 : Store} (c : Cell) : CSteps s s1 → (∀ r ∈ c.kids, r < s1.length + 1) → CSteps s (s1 ++ [c])
+
+private theorem closed_set {s : Store} (hc : Closed s) {a : Addr} {c' : Cell} (hk : ∀ r ∈ c'.kids, r < s.length) :
+    Closed (s.set a c') := by
+  intro x hx r hr
+  rw [List.length_set]
+  rcases List.mem_or_eq_of_mem_set hx with hm | rfl
+  · exact hc x hm r hr
+  · exact hk r hr
+
+private theorem CSteps.closed {s s' : Store} (h : CSteps s s') (hc : Closed s) : Closed s' ∧ s.length ≤ s'.length := by
+  induction h with
+  | refl => exact ⟨hc, Nat.le_refl _⟩
+  | scal a c f _ hcell ih => exact ⟨closed_set_same_refs ih.1 hcell rfl, by rw [List.length_set]; exact ih.2⟩
+  | ref a c i v _ hcell hv ih =>
+    refine ⟨closed_set ih.1 ?_, by rw [List.length_set]; exact ih.2⟩
+    intro r hr
+    rcases List.mem_or_eq_of_mem_set (mem_kids.mp hr) with hm | he
+    · exact closed_kid_lt ih.1 hcell (mem_kids.mpr hm)
+    · exact hv r he.symm
+  | alloc c _ hk ih =>
+    exact ⟨closed_append ih.1 (by simpa using hk), by rw [List.length_append]; exact Nat.le_trans ih.2 (Nat.le_add_right _ _)⟩
+
+private theorem CSteps.len {s s' : Store} (h : CSteps s s') : s.length ≤ s'.length := by
+  induction h with
+  | refl => exact Nat.le_refl _
+  | scal a c f _ _ ih => rw [List.length_set]; exact ih
+  | ref a c i v _ _ _ ih => rw [List.length_set]; exact ih
+  | alloc c _ _ ih => rw [List.length_append]; exact Nat.le_trans ih (Nat.le_add_right _ _)
+
+private theorem csteps_setScal {s0 s s' : Store} {a : Addr} {i v : Nat} {u : Unit} (st : CSteps s0 s)
+    (h : (setScal a i v).run s = some (u, s')) : CSteps s0 s' := by
+  obtain ⟨c, hc, rfl⟩ := (setScal_run _ _ _ _ _ _).mp h
+  exact .scal a c _ st hc
+
+private theorem csteps_setRef {s0 s s' : Store} {a : Addr} {i : Nat} {v : Option Addr} {u : Unit} (st : CSteps s0 s)
+    (hv : ∀ r, v = some r → r < s0.length) (h : (setRef a i v).run s = some (u, s')) : CSteps s0 s' := by
+  obtain ⟨c, hc, rfl⟩ := (setRef_run _ _ _ _ _ _).mp h
+  exact .ref a c i v st hc (fun r hr => Nat.lt_of_lt_of_le (hv r hr) st.len)
+
+/-- the address arguments of a setter call are cells of the store (side condition of closure preservation) -/
+def FinOp.argsIn (s : Store) : FinOp → Prop
+  | .cond _ => True
+  | .faultLoc t => ∀ a, t = some a → a < s.length
+  | .responses l => ∀ a, l = some a → a < s.length
+
+def FdOp.argsIn (s : Store) : FdOp → Prop
+  | .fileData _ => True
+  | .segMeta m => ∀ a, m = some a → a < s.length
+
+def PduFlagOp.argsIn (s : Store) : PduFlagOp → Prop
+  | .entityIds a b => a < s.length ∧ b < s.length
+  | .seqNum q => q < s.length
+  | _ => True
+
+/-- CLOSURE PRESERVATION for the setters (every closed store, every object, every operation whose address arguments are cells
+    of the store): after a Finished-PDU setter, a File-Data setter, `holder.pdu = x`, a PDU-level flag / entity-ID setter or
+    `set_frame_len_in_header()` the store is closed again and has not shrunk — so the theorems with hypothesis `Closed` can be
+    chained through these calls by proof. (Without the side condition it is false: audit 3, finding 5.) -/
+theorem C11_heap_setters_keep_closed (s : Store) (hc : Closed s) (obj : Addr) (u : Unit) (s' : Store) :
+    (∀ op, FinOp.argsIn s op → (finSet obj op).run s = some (u, s') → Closed s' ∧ s.length ≤ s'.length) ∧
+    (∀ op, FdOp.argsIn s op → (fdSet obj op).run s = some (u, s') → Closed s' ∧ s.length ≤ s'.length) ∧
+    (∀ x, (∀ a, x = some a → a < s.length) → (holderSet obj x).run s = some (u, s') → Closed s' ∧ s.length ≤ s'.length) ∧
+    (∀ k op, PduFlagOp.argsIn s op → (pduFlagSet k obj op).run s = some (u, s') → Closed s' ∧ s.length ≤ s'.length) ∧
+    ((setFrameLenInHeader obj).run s = some (u, s') → Closed s' ∧ s.length ≤ s'.length) := by
+  have fin : ∀ {s1 : Store}, CSteps s s1 → Closed s1 ∧ s.length ≤ s1.length := fun st => st.closed hc
+  refine ⟨?_, ?_, ?_, ?_, ?_⟩
+  · intro op harg h
+    apply fin
+    have pre : ∀ (k : Addr → Addr → H Unit), (do
+          let p ← ref obj 1
+          let b ← ref obj 0
+          let hd ← ref b 0
+          k p hd).run s = some (u, s') → ∃ p hd, (k p hd).run s = some (u, s') := by
+      intro k h
+      obtain ⟨p, s1, h1, h2⟩ := (run_bind_some _ _ _ _ _).mp h
+      obtain ⟨_, e⟩ := (ref_run _ _ _ _ _).mp h1
+      subst s1
+      obtain ⟨b, s2, h3, h4⟩ := (run_bind_some _ _ _ _ _).mp h2
+      obtain ⟨_, e⟩ := (ref_run _ _ _ _ _).mp h3
+      subst s2
+      obtain ⟨hd, s3, h5, h6⟩ := (run_bind_some _ _ _ _ _).mp h4
+      obtain ⟨_, e⟩ := (ref_run _ _ _ _ _).mp h5
+      subst s3
+      exact ⟨p, hd, h6⟩
+    cases op with
+    | cond v =>
+      obtain ⟨p, hd, h⟩ := pre (fun p hd => do setScal p 0 v; setScal hd 2 (2 + v)) h
+      obtain ⟨u1, s1, h1, h2⟩ := (run_bind_some _ _ _ _ _).mp h
+      exact csteps_setScal (csteps_setScal (.refl s) h1) h2
+    | faultLoc t =>
+      cases t with
+      | some a =>
+        obtain ⟨p, hd, h⟩ := pre (fun p hd => do setRef p 1 (some a); setScal hd 2 7) h
+        obtain ⟨u1, s1, h1, h2⟩ := (run_bind_some _ _ _ _ _).mp h
+        exact csteps_setScal (csteps_setRef (.refl s) harg h1) h2
+      | none =>
+        obtain ⟨p, hd, h⟩ := pre (fun p hd => do setRef p 1 none; setScal hd 2 2) h
+        obtain ⟨u1, s1, h1, h2⟩ := (run_bind_some _ _ _ _ _).mp h
+        exact csteps_setScal (csteps_setRef (.refl s) (fun _ e => by cases e) h1) h2
+    | responses l =>
+      cases l with
+      | some a =>
+        obtain ⟨p, hd, h⟩ := pre (fun p hd => do setRef p 0 (some a); setScal hd 2 11) h
+        obtain ⟨u1, s1, h1, h2⟩ := (run_bind_some _ _ _ _ _).mp h
+        exact csteps_setScal (csteps_setRef (.refl s) harg h1) h2
+      | none =>
+        obtain ⟨p, hd, h⟩ := pre (fun p hd => do
+          let e ← new ⟨.pyList, [], []⟩
+          setRef p 0 (some e)
+          setScal hd 2 2) h
+        obtain ⟨e, s0, h0, h⟩ := (run_bind_some _ _ _ _ _).mp h
+        obtain ⟨rfl, rfl⟩ := (new_run _ _ _ _).mp h0
+        obtain ⟨u1, s1, h1, h2⟩ := (run_bind_some _ _ _ _ _).mp h
+        obtain ⟨c1, hc1, rfl⟩ := (setRef_run _ _ _ _ _ _).mp h1
+        have st1 : CSteps s (s ++ [(⟨.pyList, [], []⟩ : Cell)]) := .alloc _ (.refl s) (by simp [Cell.kids])
+        exact csteps_setScal (.ref _ c1 0 _ st1 hc1 (fun r hr => by cases hr; simp)) h2
+  · intro op harg h
+    apply fin
+    cases op with
+    | fileData n =>
+      simp only [fdSet] at h
+      obtain ⟨p, s1, h1, h2⟩ := (run_bind_some _ _ _ _ _).mp h
+      obtain ⟨_, e⟩ := (ref_run _ _ _ _ _).mp h1
+      subst s1
+      obtain ⟨hd, s2, h3, h4⟩ := (run_bind_some _ _ _ _ _).mp h2
+      obtain ⟨_, e⟩ := (ref_run _ _ _ _ _).mp h3
+      subst s2
+      obtain ⟨sm, s3, h5, h6⟩ := (run_bind_some _ _ _ _ _).mp h4
+      have e2 := refOpt_run_store _ _ _ _ _ h5
+      subst e2
+      obtain ⟨ml, s4, h7, h8⟩ := (run_bind_some _ _ _ _ _).mp h6
+      have e3 := segMetaLen_run_store _ _ _ _ h7
+      subst e3
+      obtain ⟨u1, s5, h9, h10⟩ := (run_bind_some _ _ _ _ _).mp h8
+      exact csteps_setScal (csteps_setScal (.refl _) h9) h10
+    | segMeta m =>
+      simp only [fdSet] at h
+      obtain ⟨p, s1, h1, h2⟩ := (run_bind_some _ _ _ _ _).mp h
+      obtain ⟨_, e⟩ := (ref_run _ _ _ _ _).mp h1
+      subst s1
+      obtain ⟨hd, s2, h3, h4⟩ := (run_bind_some _ _ _ _ _).mp h2
+      obtain ⟨_, e⟩ := (ref_run _ _ _ _ _).mp h3
+      subst s2
+      obtain ⟨n, s3, h5, h6⟩ := (run_bind_some _ _ _ _ _).mp h4
+      obtain ⟨_, e⟩ := (scalAt_run _ _ _ _ _).mp h5
+      subst s3
+      obtain ⟨ml, s4, h7, h8⟩ := (run_bind_some _ _ _ _ _).mp h6
+      have e3 := segMetaLen_run_store _ _ _ _ h7
+      subst e3
+      obtain ⟨u1, s5, h9, h10⟩ := (run_bind_some _ _ _ _ _).mp h8
+      obtain ⟨u2, s6, h11, h12⟩ := (run_bind_some _ _ _ _ _).mp h10
+      exact csteps_setScal (csteps_setScal (csteps_setRef (.refl _) harg h9) h11) h12
+  · intro x hx h
+    exact fin (csteps_setRef (.refl s) hx h)
+  · intro k op harg h
+    apply fin
+    cases op with
+    | fileFlag v =>
+      simp only [pduFlagSet] at h
+      obtain ⟨⟨hd, c⟩, s1, h1, h2⟩ := (run_bind_some _ _ _ _ _).mp h
+      obtain ⟨rfl, _, _⟩ := pduHeaderConf_run k obj s hd c s1 h1
+      simp only at h2
+      obtain ⟨crc, s2, h3, h4⟩ := (run_bind_some _ _ _ _ _).mp h2
+      obtain ⟨_, e⟩ := (scalAt_run _ _ _ _ _).mp h3
+      subst s2
+      obtain ⟨u1, s3, h5, h6⟩ := (run_bind_some _ _ _ _ _).mp h4
+      exact csteps_setScal (csteps_setScal (.refl _) h5) h6
+    | hdrScalar i v =>
+      simp only [pduFlagSet] at h
+      obtain ⟨⟨hd, c⟩, s1, h1, h2⟩ := (run_bind_some _ _ _ _ _).mp h
+      obtain ⟨rfl, _, _⟩ := pduHeaderConf_run k obj s hd c s1 h1
+      simp only at h2
+      exact csteps_setScal (.refl _) h2
+    | entityIds a b =>
+      simp only [pduFlagSet] at h
+      obtain ⟨⟨hd, c⟩, s1, h1, h2⟩ := (run_bind_some _ _ _ _ _).mp h
+      obtain ⟨rfl, _, _⟩ := pduHeaderConf_run k obj s hd c s1 h1
+      simp only at h2
+      obtain ⟨wa, s2, h3, h4⟩ := (run_bind_some _ _ _ _ _).mp h2
+      obtain ⟨_, e⟩ := (scalAt_run _ _ _ _ _).mp h3
+      subst s2
+      obtain ⟨wb, s3, h5, h6⟩ := (run_bind_some _ _ _ _ _).mp h4
+      obtain ⟨_, e⟩ := (scalAt_run _ _ _ _ _).mp h5
+      subst s3
+      split at h6
+      · exact ((fail_run _ _ _).mp h6).elim
+      · obtain ⟨u1, s4, h7, h8⟩ := (run_bind_some _ _ _ _ _).mp h6
+        exact csteps_setRef (csteps_setRef (.refl _) (fun r e => by cases e; exact harg.1) h7) (fun r e => by cases e; exact harg.2) h8
+    | seqNum q =>
+      simp only [pduFlagSet] at h
+      obtain ⟨⟨hd, c⟩, s1, h1, h2⟩ := (run_bind_some _ _ _ _ _).mp h
+      obtain ⟨rfl, _, _⟩ := pduHeaderConf_run k obj s hd c s1 h1
+      simp only at h2
+      exact csteps_setRef (.refl _) (fun r e => by cases e; exact harg) h2
+    | fieldValue i v =>
+      simp only [pduFlagSet] at h
+      obtain ⟨⟨hd, c⟩, s1, h1, h2⟩ := (run_bind_some _ _ _ _ _).mp h
+      obtain ⟨rfl, _, _⟩ := pduHeaderConf_run k obj s hd c s1 h1
+      simp only at h2
+      obtain ⟨f, s2, h3, h4⟩ := (run_bind_some _ _ _ _ _).mp h2
+      obtain ⟨_, e⟩ := (ref_run _ _ _ _ _).mp h3
+      subst s2
+      exact csteps_setScal (.refl _) h4
+  · intro h
+    obtain ⟨hd, ch, _, hch, hcase, _, _⟩ := C11_heap_set_frame_len_writes_caller_header s obj u s' h
+    rcases hcase with ⟨_, rfl⟩ | ⟨_, v, _, rfl⟩
+    · exact ⟨hc, Nat.le_refl _⟩
+    · exact ⟨closed_set_same_refs hc hch rfl, by simp⟩
+
+/-- CLOSURE PRESERVATION for the remaining builders: `PusVerificator.add_tc(tc)`, `create_<step>_tm(apid, tc, ts)`,
+    `Service1Tm(…)` without parameters, `TransferFrame.unpack`, the USLP header / data-field constructors need no side
+    condition; `Service1Tm.from_tm(tm)`, `Service1Tm(verif_params=vp)`, `PusTm` / `PusTc.from_composite_fields(hdr, sec, …)`,
+    `TransferFrame(hdr, tfdf, …)`, `PduHolder(x)` keep a closed store closed when the objects they are given are cells of it -/
+theorem C11_heap_builders_keep_closed :
+    (∀ v tc, KeepsClosed (verificatorAddTc v tc)) ∧ (∀ tc a b c, KeepsClosed (service1FromTc tc a b c)) ∧
+    (∀ a b c, KeepsClosed (newService1TmDefault a b c)) ∧ (∀ tr hs ts fs, KeepsClosed (unpackFrame tr hs ts fs)) ∧
+    (∀ a b c d e f g, KeepsClosed (newUslpHeader a b c d e f g)) ∧ (∀ a b c d, KeepsClosed (newUslpTruncHeader a b c d)) ∧
+    (∀ r i f n, KeepsClosed (newTfdf r i f n)) ∧
+    (∀ s, Closed s → ∀ x y, x < s.length → y < s.length → ∀ r s',
+      (∀ n, (tmFromCompositeFields x y n).run s = some (r, s') → Closed s' ∧ s.length ≤ s'.length ∧ r < s'.length) ∧
+      (∀ n, (tcFromCompositeFields x y n).run s = some (r, s') → Closed s' ∧ s.length ≤ s'.length ∧ r < s'.length) ∧
+      (∀ iz ocf fecf, (newTransferFrame x y iz ocf fecf).run s = some (r, s') → Closed s' ∧ s.length ≤ s'.length ∧ r < s'.length) ∧
+      ((service1FromTm x).run s = some (r, s') → Closed s' ∧ s.length ≤ s'.length ∧ r < s'.length) ∧
+      (∀ a b c, (newService1Tm x a b c).run s = some (r, s') → Closed s' ∧ s.length ≤ s'.length ∧ r < s'.length) ∧
+      ((newHolder (some x)).run s = some (r, s') → Closed s' ∧ s.length ≤ s'.length ∧ r < s'.length)) := by
+  have noarg : ∀ (m : H Addr), (∀ s r s', m.run s = some (r, s') →
+      ∃ t, s' = s ++ t ∧ (∀ c ∈ t, ∀ x ∈ c.kids, x < s.length + t.length) ∧ r < s.length + t.length) → KeepsClosed m := by
+    intro m hm s hc r s' h
+    obtain ⟨t, rfl, ht, hr⟩ := hm s r s' h
+    exact ⟨closed_append hc ht, by simp, by simpa using hr⟩
+  have witht : ∀ (s : Store), Closed s → ∀ (t : Store) (r : Addr), (∀ c ∈ t, ∀ x ∈ c.kids, x < s.length + t.length) →
+      r < s.length + t.length → Closed (s ++ t) ∧ s.length ≤ (s ++ t).length ∧ r < (s ++ t).length :=
+    fun s hc t r ht hr => ⟨closed_append hc ht, by simp, by simpa using hr⟩
+  refine ⟨?_, ?_, ?_, ?_, ?_, ?_, ?_, ?_⟩
+  · intro v tc s hc key s' h
+    unfold verificatorAddTc at h
+    obtain ⟨hdr, s1, h1, h2⟩ := (run_bind_some _ _ _ _ _).mp h
+    obtain ⟨_, e⟩ := (ref_run _ _ _ _ _).mp h1
+    subst s1
+    obtain ⟨rid, s2, h3, h4⟩ := (run_bind_some _ _ _ _ _).mp h2
+    obtain ⟨c2, l2, r2⟩ := C11_heap_ops_keep_closed.2.2.2.2.2.2.2.2.1 hdr s hc rid s2 h3
+    obtain ⟨st, s3, h5, h6⟩ := (run_bind_some _ _ _ _ _).mp h4
+    obtain ⟨rfl, rfl⟩ := (new_run _ _ _ _).mp h5
+    obtain ⟨cv, s4, h7, h8⟩ := (run_bind_some _ _ _ _ _).mp h6
+    obtain ⟨hcv, e⟩ := (cellAt_run _ _ _ _).mp h7
+    subst s4
+    obtain ⟨u, s5, h9, h10⟩ := (run_bind_some _ _ _ _ _).mp h8
+    obtain ⟨_, e⟩ := (put_run _ _ _ _ _).mp h9
+    subst s5
+    obtain ⟨rfl, rfl⟩ := (pure_run _ _ _ _).mp h10
+    have c3 : Closed (s2 ++ [(⟨.verifStatus, [], [0, 0, 0, 0, 0]⟩ : Cell)]) := closed_append c2 (by simp [Cell.kids])
+    refine ⟨closed_set c3 ?_, by simp; omega, Nat.lt_of_lt_of_le r2 (by simp)⟩
+    intro r hr
+    have hm := mem_kids.mp hr
+    simp only [List.mem_append, List.mem_cons, List.not_mem_nil, or_false] at hm
+    rcases hm with hm | hm | hm
+    · exact closed_kid_lt c3 hcv (mem_kids.mpr hm)
+    · cases hm; exact Nat.lt_of_lt_of_le r2 (by simp)
+    · cases hm; simp
+  · intro tc a b c s hc r s' h
+    unfold service1FromTc at h
+    obtain ⟨hdr, s1, h1, h2⟩ := (run_bind_some _ _ _ _ _).mp h
+    obtain ⟨_, e⟩ := (ref_run _ _ _ _ _).mp h1
+    subst s1
+    obtain ⟨rid, s2, h3, h4⟩ := (run_bind_some _ _ _ _ _).mp h2
+    obtain ⟨c2, l2, r2⟩ := C11_heap_ops_keep_closed.2.2.2.2.2.2.2.2.1 hdr s hc rid s2 h3
+    simp [newPusTm, newSpHeader, newPacketId, newPsc, StateT.run_bind, new_run_eq] at h4
+    obtain ⟨rfl, rfl⟩ := h4
+    have hridN : @LT.lt Nat _ rid s2.length := r2
+    refine ⟨closed_append c2 ?_, by simp; omega, by simp⟩
+    simp [Cell.kids]
+    exact Nat.lt_of_lt_of_le r2 (by omega)
+  · intro a b c
+    apply noarg
+    intro s r s' h
+    simp [newService1TmDefault, newReqId, newVerifParams, newPusTm, newSpHeader, newPacketId, newPsc, StateT.run_bind, new_run_eq] at h
+    obtain ⟨rfl, rfl⟩ := h
+    refine ⟨_, rfl, ?_, ?_⟩ <;> first | (simp [Cell.kids]; done) | (simp [Cell.kids]; omega)
+  · intro tr hs ts fs
+    apply noarg
+    intro s r s' h
+    simp [unpackFrame, StateT.run_bind, new_run_eq] at h
+    obtain ⟨rfl, rfl⟩ := h
+    refine ⟨_, rfl, ?_, ?_⟩ <;> first | (simp [Cell.kids]; done) | (simp [Cell.kids]; omega)
+  · intro a b c d e f g
+    apply noarg
+    intro s r s' h
+    obtain ⟨rfl, rfl⟩ := (new_run _ _ _ _).mp h
+    exact ⟨_, rfl, by simp [Cell.kids], by simp⟩
+  · intro a b c d
+    apply noarg
+    intro s r s' h
+    obtain ⟨rfl, rfl⟩ := (new_run _ _ _ _).mp h
+    exact ⟨_, rfl, by simp [Cell.kids], by simp⟩
+  · intro a b c d
+    apply noarg
+    intro s r s' h
+    unfold newTfdf at h
+    split at h
+    · exact ((fail_run _ _ _).mp h).elim
+    · obtain ⟨rfl, rfl⟩ := (new_run _ _ _ _).mp h
+      exact ⟨_, rfl, by simp [Cell.kids], by simp⟩
+  · intro s hc x y hx hy r s'
+    have one : ∀ (c : Cell), (∀ k ∈ c.kids, k = x ∨ k = y) → r = s.length → s' = s ++ [c] →
+        Closed s' ∧ s.length ≤ s'.length ∧ r < s'.length := by
+      intro c hk rfl rfl
+      refine ⟨closed_append hc ?_, by simp, by simp⟩
+      intro c' hc' k hk'
+      simp only [List.mem_cons, List.not_mem_nil, or_false] at hc'
+      subst hc'
+      rcases hk k hk' with rfl | rfl
+      · exact Nat.lt_of_lt_of_le hx (Nat.le_add_right _ _)
+      · exact Nat.lt_of_lt_of_le hy (Nat.le_add_right _ _)
+    refine ⟨?_, ?_, ?_, ?_, ?_, ?_⟩
+    · intro n h
+      obtain ⟨_, _, _, rfl⟩ := C11_heap_tm_from_composite_keeps_caller_object s x y hx hy n r s' h
+      have hal := (alloc_new (⟨.pusTm, [some x, some y], [n, 0]⟩ : Cell)).ext
+      refine one _ (by simp [Cell.kids]) ?_ rfl
+      unfold tmFromCompositeFields at h
+      obtain ⟨pid, s1, h1, h2⟩ := (run_bind_some _ _ _ _ _).mp h
+      obtain ⟨_, e⟩ := (ref_run _ _ _ _ _).mp h1
+      subst s1
+      obtain ⟨pt, s2, h3, h4⟩ := (run_bind_some _ _ _ _ _).mp h2
+      obtain ⟨_, e⟩ := (scalAt_run _ _ _ _ _).mp h3
+      subst s2
+      split at h4
+      · exact ((fail_run _ _ _).mp h4).elim
+      · exact ((new_run _ _ _ _).mp h4).1
+    · intro n h
+      unfold tcFromCompositeFields at h
+      obtain ⟨pid, s1, h1, h2⟩ := (run_bind_some _ _ _ _ _).mp h
+      obtain ⟨_, e⟩ := (ref_run _ _ _ _ _).mp h1
+      subst s1
+      obtain ⟨pt, s2, h3, h4⟩ := (run_bind_some _ _ _ _ _).mp h2
+      obtain ⟨_, e⟩ := (scalAt_run _ _ _ _ _).mp h3
+      subst s2
+      split at h4
+      · exact ((fail_run _ _ _).mp h4).elim
+      · obtain ⟨e1, e2⟩ := (new_run _ _ _ _).mp h4
+        exact one _ (by simp [Cell.kids]) e1 e2
+    · intro iz ocf fecf h
+      obtain ⟨e1, e2⟩ := (new_run _ _ _ _).mp h
+      exact one _ (by simp [Cell.kids]) e1 e2
+    · intro h
+      obtain ⟨sub, _, _, rfl, rfl⟩ := service1FromTm_shape s x r s' h
+      obtain ⟨hk, hpos, _, _, _, _⟩ := s1Params_kids s.length sub
+      have hxN : @LT.lt Nat _ x s.length := hx
+      refine ⟨closed_append hc ?_, by simp, by simp⟩
+      intro c hcm k hk'
+      rcases List.mem_append.mp hcm with hm | hm
+      · exact Nat.lt_of_lt_of_le (hk c hm k hk').2 (by simp)
+      · simp only [List.mem_cons, List.not_mem_nil, or_false] at hm
+        subst hm
+        simp [Cell.kids] at hk'
+        rcases hk' with rfl | rfl
+        · show @LT.lt Nat _ _ _
+          simp; omega
+        · exact Nat.lt_of_lt_of_le hx (Nat.le_add_right _ _)
+    · intro a b c h
+      unfold newService1Tm newPusTm newSpHeader newPacketId newPsc at h
+      obtain ⟨cx, s1, h1, h2⟩ := (run_bind_some _ _ _ _ _).mp h
+      obtain ⟨_, e⟩ := (cellAt_run _ _ _ _).mp h1
+      subst s1
+      simp [StateT.run_bind, new_run_eq] at h2
+      obtain ⟨rfl, rfl⟩ := h2
+      refine ⟨closed_append hc ?_, by simp, by simp⟩
+      simp [Cell.kids]
+      exact Nat.lt_of_lt_of_le hx (by omega)
+    · intro h
+      obtain ⟨e1, e2⟩ := (new_run _ _ _ _).mp h
+      exact one _ (by simp [Cell.kids]) e1 e2
+
+/-- CHAINED through a setter, by proof (no evaluation): on ANY closed store with a configuration cell, build a Keep Alive PDU and
+    assign its file flag — the store is closed after both calls and the caller's configuration (cell and view) is what it was -/
+example (s0 : Store) (hc0 : Closed s0) (conf : Addr) (cc : Cell) (hcc : s0[conf]? = some cc) (hl : ConfFieldsAreLeaves s0 conf)
+    (pdu : Addr) (s1 s2 : Store) (u : Unit) (v : Nat)
+    (h1 : (newKeepAlivePdu conf 7).run s0 = some (pdu, s1))
+    (h2 : (pduFlagSet .keepAlive pdu (.fileFlag v)).run s1 = some (u, s2)) :
+    Closed s2 ∧ s2[conf]? = some cc ∧ view s2 conf = view s0 conf := by
+  have ho : ObjsAvoid s0 [] conf := fun o h => by simp at h
+  obtain ⟨c1, l1, _⟩ := C11_heap_ops_keep_closed.2.2.2.2.2.2.2.2.2.2.2.2 .keepAlive conf [] [7] false 0 0 s0 hc0 (fun o h => by simp at h) pdu s1 h1
+  obtain ⟨c2, _⟩ := (C11_heap_setters_keep_closed s1 c1 pdu u s2).2.2.2.1 .keepAlive (.fileFlag v) trivial h2
+  obtain ⟨_, hcell, hview⟩ := C11_heap_pdu_flag_setter_invisible_to_caller .keepAlive conf [] [7] false 0 0 s0 hc0 cc hcc hl ho pdu s1 h1
+    (.fileFlag v) (fun _ _ e => by cases e) u s2 h2
+  have hlt : conf < s0.length := (List.getElem?_eq_some_iff.mp hcc).1
+  refine ⟨c2, hcell, ?_⟩
+  rw [view, (hview depth conf hlt).1]
+  exact (C11_heap_pdu_ctor_inputs_untouched .keepAlive conf [] [7] false 0 0 s0 hc0 pdu s1 h1 conf hlt).1
+
+
+/-- evaluated: two NAK PDUs built without a list from one configuration get two lists (6 and 11), neither reachable from the
+    caller's configuration -/
+example : Holds ((newNakPdu 3 0 100 none).run exConfStore) fun pdu s' =>
+    followAttrs s' pdu ["segment_requests"] = some 6 ∧ 6 ∉ reach s' 3 ∧
+    Holds ((newNakPdu 3 0 50 none).run s') fun pdu2 s'' =>
+      followAttrs s'' pdu2 ["segment_requests"] = some 11 ∧ followAttrs s'' pdu ["segment_requests"] = some 6 := by decide
+
+/-- the side condition of `C11_heap_setters_keep_closed` is needed and sufficient on a concrete store (audit 3, finding 5): a
+    fault location that is not a cell breaks closure, one that is a cell (4) keeps it; and the tracker / report builders keep
+    `exTcStore` closed -/
+example : Holds ((newFinishedPdu 3 5).run exConfStore) fun pdu s' =>
+    Closed s' ∧ Holds ((finSet pdu (.faultLoc (some 999))).run s') (fun _ s'' => ¬ Closed s'') ∧
+    Holds ((finSet pdu (.faultLoc (some 4))).run s') (fun _ s'' => Closed s'') ∧
+    Holds ((pduFlagSet .finished pdu (.entityIds 1 0)).run s') (fun _ s'' => Closed s'') := by decide
+
+example : Holds (newVerificator.run exTcStore) fun v s1 => Holds ((verificatorAddTc v 4).run s1) fun _ s2 =>
+    Closed s2 ∧ Holds ((service1FromTc 4 9 1 7).run s2) fun _ s3 => Closed s3 := by decide
+
 end SpVerif.Props.C11Heap
